@@ -53,6 +53,7 @@ type FuncContract struct {
 	Notes      []string
 	Reveal     []string
 	Uses       []string
+	Allocates  []string
 }
 
 type SpecFn struct {
@@ -85,6 +86,7 @@ type SpecLemma struct {
 	Line     int
 	Props    []string
 	Reveal   []string
+	NoAxioms bool
 }
 
 type GhostField struct {
@@ -188,7 +190,7 @@ func readContractLines(path string, requirePrefix bool) ([]rawLine, string, erro
 var clauseKeywords = map[string]bool{"requires": true, "ensures": true, "invariant": true, "modifies": true, "pure": true,
 	"trusted": true, "may_panic": true, "loop": true, "func": true, "extern": true, "functype": true, "lemma": true,
 	"sort": true, "fn": true, "axiom": true, "ghost": true, "pkgframe": true, "guarded": true, "lockinv": true,
-	"acquires": true, "releases": true, "opaque": true, "reveal": true, "uses": true, "crashinv": true, "note": true, "recfn": true, "props": true}
+	"acquires": true, "releases": true, "opaque": true, "reveal": true, "uses": true, "allocates": true, "noaxioms": true, "crashinv": true, "note": true, "recfn": true, "props": true}
 
 func firstWord(s string) (string, string) {
 	s = strings.TrimSpace(s)
@@ -345,6 +347,14 @@ func parseDirectives(lines []rawLine, pkgPath string, spec *SpecSet, contracts m
 			}
 		case "sort":
 			spec.Sorts[strings.TrimSpace(d.rest)] = true
+		case "noaxioms":
+			if curLemma != nil {
+				curLemma.NoAxioms = true
+			}
+		case "allocates":
+			if cur != nil {
+				cur.Allocates = append(cur.Allocates, splitNames(d.rest)...)
+			}
 		case "uses":
 			if cur != nil {
 				cur.Uses = append(cur.Uses, splitNames(d.rest)...)
